@@ -431,41 +431,69 @@ theorem exec_run {v hooked tr ls s} (h : Exec v hooked tr ls s) : runLabels v in
 def Kept (v : Variant) (reduce hooked : Bool) (tr : List Obs) (x : State) : Prop :=
   ∃ ls s, Exec v hooked tr ls s ∧ norm reduce s = x
 
-theorem kept_tau {v reduce hooked tr x y} (hx : Kept v reduce hooked tr x)
-    (hy : y ∈ tauSuccs v reduce hooked x) : Kept v reduce hooked tr y := by
+theorem kept_silent {v reduce hooked tr x l x'} (hx : Kept v reduce hooked tr x)
+    (hsil : silent hooked l = true) (hst : step v x l = some x') :
+    Kept v reduce hooked tr (norm reduce x') := by
   obtain ⟨ls, s, he, rfl⟩ := hx
+  cases reduce with
+  | false =>
+    rw [norm_false] at hst
+    exact ⟨ls ++ [l], x', Exec.tau he hsil hst, rfl⟩
+  | true =>
+    obtain ⟨l', s', h1, h2, h3, _⟩ := sim_step hooked (exec_reach he) hst
+    exact ⟨ls ++ [l'], s', Exec.tau he (h3 hsil) h1, h2⟩
+
+theorem kept_observed {v reduce hooked tr x l x' o} (hx : Kept v reduce hooked tr x)
+    (hmem : l ∈ obsLabels x o) (hst : step v x l = some x') :
+    Kept v reduce hooked (tr ++ [o]) (norm reduce x') := by
+  obtain ⟨ls, s, he, rfl⟩ := hx
+  cases reduce with
+  | false =>
+    rw [norm_false] at hst hmem
+    exact ⟨ls ++ [l], x', Exec.obs he hmem hst, rfl⟩
+  | true =>
+    obtain ⟨l', s', h1, h2, _, h4⟩ := sim_step hooked (exec_reach he) hst
+    exact ⟨ls ++ [l'], s', Exec.obs he (h4 o hmem) h1, h2⟩
+
+/-- Settling only takes silent steps (and normalises): it stays within the kept states. -/
+theorem kept_settle {v reduce hooked eager tr} : ∀ (fuel : Nat) (x : State),
+    Kept v reduce hooked tr x → Kept v reduce hooked tr (settle v reduce hooked eager fuel x)
+  | 0, x, hx => by simpa [settle] using hx
+  | fuel + 1, x, hx => by
+    simp only [settle]
+    split
+    · split
+      · next l hl =>
+        split
+        · next s' hs' =>
+          have hmem := List.mem_of_find?_eq_some hl
+          simp only [List.mem_filter] at hmem
+          exact kept_settle fuel _ (kept_silent hx hmem.2 hs')
+        · exact hx
+      · exact hx
+    · exact hx
+
+theorem kept_tau {v reduce hooked eager tr x y} (hx : Kept v reduce hooked tr x)
+    (hy : y ∈ tauSuccs v reduce hooked eager x) : Kept v reduce hooked tr y := by
   simp only [tauSuccs, List.mem_filterMap, List.mem_filter] at hy
   obtain ⟨l, ⟨_, hsil⟩, hstep⟩ := hy
-  cases hst : step v (norm reduce s) l with
+  cases hst : step v x l with
   | none => simp [hst] at hstep
   | some x' =>
     simp [hst] at hstep
     subst hstep
-    cases reduce with
-    | false =>
-      rw [norm_false] at hst
-      exact ⟨ls ++ [l], x', Exec.tau he hsil hst, by simp⟩
-    | true =>
-      obtain ⟨l', s', h1, h2, h3, _⟩ := sim_step hooked (exec_reach he) hst
-      exact ⟨ls ++ [l'], s', Exec.tau he (h3 hsil) h1, h2⟩
+    exact kept_settle _ _ (kept_silent hx hsil hst)
 
-theorem kept_obs {v reduce hooked tr x y o} (hx : Kept v reduce hooked tr x)
-    (hy : y ∈ obsSuccs v reduce x o) : Kept v reduce hooked (tr ++ [o]) y := by
-  obtain ⟨ls, s, he, rfl⟩ := hx
+theorem kept_obs {v reduce hooked eager tr x y o} (hx : Kept v reduce hooked tr x)
+    (hy : y ∈ obsSuccs v reduce hooked eager x o) : Kept v reduce hooked (tr ++ [o]) y := by
   simp only [obsSuccs, List.mem_filterMap] at hy
   obtain ⟨l, hmem, hstep⟩ := hy
-  cases hst : step v (norm reduce s) l with
+  cases hst : step v x l with
   | none => simp [hst] at hstep
   | some x' =>
     simp [hst] at hstep
     subst hstep
-    cases reduce with
-    | false =>
-      rw [norm_false] at hst hmem
-      exact ⟨ls ++ [l], x', Exec.obs he hmem hst, by simp⟩
-    | true =>
-      obtain ⟨l', s', h1, h2, _, h4⟩ := sim_step hooked (exec_reach he) hst
-      exact ⟨ls ++ [l'], s', Exec.obs he (h4 o hmem) h1, h2⟩
+    exact kept_settle _ _ (kept_observed hx hmem hst)
 
 /-- The pair (work list, accumulated set) only contains states satisfying `Q`. -/
 def AllQ (Q : State → Prop) (p : List State × Acc) : Prop :=
@@ -496,10 +524,10 @@ theorem foldl_addNew_allQ {Q : State → Prop} : ∀ (ys : List State) (p : List
     exact foldl_addNew_allQ ys _ (addNew_allQ hp (hys y (by simp)))
       (fun z hz => hys z (by simp [hz]))
 
-theorem closureAux_allQ {v reduce hooked cap} {Q : State → Prop}
-    (hQ : ∀ x y, Q x → y ∈ tauSuccs v reduce hooked x → Q y) :
+theorem closureAux_allQ {v reduce hooked eager cap} {Q : State → Prop}
+    (hQ : ∀ x y, Q x → y ∈ tauSuccs v reduce hooked eager x → Q y) :
     ∀ (fuel : Nat) (todo : List State) (acc : Acc), AllQ Q (todo, acc) →
-      ∀ x, x ∈ (closureAux v reduce hooked cap fuel todo acc).list → Q x
+      ∀ x, x ∈ (closureAux v reduce hooked eager cap fuel todo acc).list → Q x
   | 0, _, acc, hp => by simpa [closureAux] using hp.2
   | fuel + 1, [], acc, hp => by simpa [closureAux] using hp.2
   | fuel + 1, s :: rest, acc, hp => by
@@ -508,21 +536,21 @@ theorem closureAux_allQ {v reduce hooked cap} {Q : State → Prop}
     · exact hp.2
     · have hs : Q s := hp.1 s (by simp)
       have hp' : AllQ Q (rest, acc) := ⟨fun x hx => hp.1 x (by simp [hx]), hp.2⟩
-      have := foldl_addNew_allQ (tauSuccs v reduce hooked s) (rest, acc) hp'
+      have := foldl_addNew_allQ (tauSuccs v reduce hooked eager s) (rest, acc) hp'
         (fun y hy => hQ s y hs hy)
       exact closureAux_allQ hQ fuel _ _ this
 
-theorem closeSet_allQ {v reduce hooked cap} {Q : State → Prop}
-    (hQ : ∀ x y, Q x → y ∈ tauSuccs v reduce hooked x → Q y) (xs : List State)
+theorem closeSet_allQ {v reduce hooked eager cap} {Q : State → Prop}
+    (hQ : ∀ x y, Q x → y ∈ tauSuccs v reduce hooked eager x → Q y) (xs : List State)
     (hxs : ∀ x, x ∈ xs → Q x) :
-    ∀ x, x ∈ (closeSet v reduce hooked cap xs).list → Q x := by
+    ∀ x, x ∈ (closeSet v reduce hooked eager cap xs).list → Q x := by
   unfold closeSet
   exact closureAux_allQ hQ _ _ _
     (foldl_addNew_allQ xs ([], Acc.empty) ⟨by simp, by simp [Acc.empty]⟩ hxs)
 
-theorem acceptStep_kept {v reduce hooked cap tr cur o}
+theorem acceptStep_kept {v reduce hooked eager cap tr cur o}
     (hcur : ∀ x, x ∈ cur → Kept v reduce hooked tr x) :
-    ∀ y, y ∈ (acceptStep v reduce hooked cap cur o).list → Kept v reduce hooked (tr ++ [o]) y := by
+    ∀ y, y ∈ (acceptStep v reduce hooked eager cap cur o).list → Kept v reduce hooked (tr ++ [o]) y := by
   unfold acceptStep
   apply closeSet_allQ (fun x y hx hy => kept_tau hx hy)
   intro y hy
@@ -530,8 +558,8 @@ theorem acceptStep_kept {v reduce hooked cap tr cur o}
   obtain ⟨x, hx, hy⟩ := hy
   exact kept_obs (hcur x hx) hy
 
-theorem startSet_kept {v reduce hooked cap} :
-    ∀ x, x ∈ (startSet v reduce hooked cap).list → Kept v reduce hooked [] x := by
+theorem startSet_kept {v reduce hooked eager cap} :
+    ∀ x, x ∈ (startSet v reduce hooked eager cap).list → Kept v reduce hooked [] x := by
   unfold startSet
   apply closeSet_allQ (fun x y hx hy => kept_tau hx hy)
   intro x hx
@@ -539,9 +567,9 @@ theorem startSet_kept {v reduce hooked cap} :
   subst hx
   exact ⟨[], init, Exec.init, rfl⟩
 
-theorem acceptRun_kept {v reduce hooked cap} : ∀ (tr pre : List Obs) (cur : List State),
+theorem acceptRun_kept {v reduce hooked eager cap} : ∀ (tr pre : List Obs) (cur : List State),
     (∀ x, x ∈ cur → Kept v reduce hooked pre x) →
-    ∀ y, y ∈ acceptRun v reduce hooked cap cur tr → Kept v reduce hooked (pre ++ tr) y
+    ∀ y, y ∈ acceptRun v reduce hooked eager cap cur tr → Kept v reduce hooked (pre ++ tr) y
   | [], pre, cur, h => by simpa [acceptRun] using h
   | o :: tr, pre, cur, h => by
     intro y hy
